@@ -60,7 +60,7 @@ impl AppendTextComment {
                 .map(|content| {
                     if content.is_empty() {
                         "".to_owned()
-                    } else if content.contains('\n') {
+                    } else if content.contains(['\n', '\r']) || starts_with_long_bracket(&content) {
                         let mut equal_count = 0;
 
                         let close_comment = loop {
@@ -84,6 +84,15 @@ impl AppendTextComment {
             })
             .clone()
     }
+}
+
+/// Returns true when the text starts like a long bracket (`[[`, `[=[`, ...), which
+/// would open a multi-line comment if it was written directly after `--`.
+fn starts_with_long_bracket(content: &str) -> bool {
+    content
+        .strip_prefix('[')
+        .map(|rest| rest.trim_start_matches('=').starts_with('['))
+        .unwrap_or(false)
 }
 
 impl Rule for AppendTextComment {
